@@ -364,7 +364,7 @@ func (p *parser) parseLabelPredicateAnd() (pred LabelPredicate, _ error) {
 			pred = &BytesFilter{Label: Label(t.Text), Op: op, Value: b}
 		case lexer.IP:
 			switch opTok.Type {
-			case lexer.CmpEq, lexer.NotEq:
+			case lexer.Eq, lexer.CmpEq, lexer.NotEq:
 			default:
 				return nil, errors.Errorf("invalid operation %q", opTok.Type)
 			}
